@@ -39,6 +39,11 @@ class Bisection1D:
             load_years = [2019]
         self.load_years = load_years
         self.searchTracker = []
+        if len(coordinates_domain) == 0:
+            raise ValueError(
+                "The geometric constraints admit no borehole field: no whole number of rows fits between the "
+                "minimum and maximum borehole spacing."
+            )
         coordinates = coordinates_domain[0]
         current_field = field_descriptors[0]
         self.field_type = field_type
@@ -784,10 +789,11 @@ class Bisection2D(Bisection1D):
             print("Note: This routine requires a nested bisection search.")
         self.load_years = load_years
         # Get a coordinates domain for initialization
-        coordinates_domain = coordinates_domain_nested[0]
+        # an empty nested domain is reported by Bisection1D as a ValueError
+        coordinates_domain = coordinates_domain_nested[0] if len(coordinates_domain_nested) > 0 else []
         super().__init__(
             coordinates_domain,
-            field_descriptors[0],
+            field_descriptors[0] if len(field_descriptors) > 0 else [],
             v_flow,
             borehole,
             bhe_type,
@@ -858,10 +864,11 @@ class BisectionZD(Bisection1D):
             print("Note: This design routine currently requires several bisection searches.")
 
         # Get a coordinates domain for initialization
-        coordinates_domain = coordinates_domain_nested[0]
+        # an empty nested domain is reported by Bisection1D as a ValueError
+        coordinates_domain = coordinates_domain_nested[0] if len(coordinates_domain_nested) > 0 else []
         super().__init__(
             coordinates_domain,
-            field_descriptors[0],
+            field_descriptors[0] if len(field_descriptors) > 0 else [],
             v_flow,
             borehole,
             bhe_type,
